@@ -98,10 +98,15 @@ static void run_one(const Inp &in, const Config &c, int k, Sink &s) {
     std::vector<double> x(n, 0.0); size_t it = 0; double res = 0; bool returned = false;
     try {
         auto body = [&](auto &S, bool amg_levels) {
-            (void)amg_levels;
+            (void)amg_levels; const std::string pc = c.relax_only ? std::string("relaxation:") + RELAX[c.relax] : std::string(COARS[c.coars]) + "+" + RELAX[c.relax];
+            NV y0(n); S.precond().apply(in.f, y0); uint64_t h0 = vf::vec_hash(y0); s.digest(k, "precond_apply", h0);          // on the fresh object
             std::tie(it, res) = S(in.f, x); returned = true;
             s.digest(k, "solution", vf::vec_hash(x)); uint64_t itb = it, rb; memcpy(&rb, &res, 8); vf::Digest d; d.pod(itb); d.pod(rb); s.digest(k, "iters+resid", d.h);
-            NV y(n); S.precond().apply(in.f, y); s.digest(k, "precond_apply", vf::vec_hash(y));
+            // "regardless of what the process did before": the same calls on the used object give the same bits
+            NV y1(n); S.precond().apply(in.f, y1); ++checks;
+            if (vf::vec_hash(y1) != h0) s.fail(k, "history-dependent:precond_apply:" + pc, "applying the preconditioner to the same vector before and after a solve gives different results (" + c.name() + ")");
+            std::vector<double> x2(n, 0.0); size_t it2; double res2; std::tie(it2, res2) = S(in.f, x2); uint64_t rb2; memcpy(&rb2, &res2, 8); ++checks;
+            if (vf::vec_hash(x2) != vf::vec_hash(x) || it2 != it || rb2 != rb) s.fail(k, std::string("history-dependent:solve:") + SOLV[c.solver] + ":" + pc, "solving the same system twice with the same object gives different results (" + c.name() + "): iterations " + std::to_string(it) + " / " + std::to_string(it2));
         };
         if (c.relax_only) {
             if (c.adapter == 1) { auto Az = adapter::zero_copy(n, zp, zc, zv); { RSolver S(Az, p); body(S, false); } }
